@@ -77,22 +77,6 @@ Emit ==
                                 failed |-> last'.failed, to |-> IF last'.ok THEN st' ELSE [same |-> TRUE]]))
 
 ----------------------------------------------------------------------------
-(* C15, stated independently of the handler's own arithmetic *)
-ValidSigners(s, votes, cp) ==
-  {v \in DOMAIN s.hostVals : \E i \in 1..Len(votes) : votes[i].val = v /\ votes[i].flag = "commit" /\ votes[i].sig = "ok" /\ Report(votes[i].ext, cp) > 0}
-QuorumSound(s, o, t) ==
-  \A cp \in DOMAIN s.price :
-     t.price[cp] # s.price[cp] =>
-        /\ o.e.type = "UpdateOracle" /\ o.ok /\ IsExecutor(s, o.e.signer) /\ s.enabled
-        /\ 3 * SumOver(s.hostVals, ValidSigners(s, o.e.votes, cp)) >= 2 * Total(s)
-        /\ 3 * SumOver(s.hostVals, ValidSigners(s, o.e.votes, "TS")) >= 2 * Total(s)
-        /\ t.price[cp].ts > s.price[cp].ts                                           \* no replay / rollback
-        /\ \E i \in 1..Len(o.e.votes) : Report(o.e.votes[i].ext, cp) = t.price[cp].p   \* the accepted value was reported by someone
-HeightNotOlder(s, o, t) == (o.e.type = "UpdateOracle" /\ o.ok) => (s.hostH > 0 /\ o.e.height >= s.hostH)
-HostSetOnlyForward(s, o, t) ==
-  (t.hostVals # s.hostVals \/ t.hostH # s.hostH) => (o.e.type = "UpdateHostSet" /\ t.hostH > s.hostH /\ o.e.client = s.client /\ t.hostVals = o.e.set)
-NoEffectOnReject(s, o, t) == ~o.ok => t = s
-
 NextOutcome == [e |-> last'.e, ok |-> last'.ok, resp |-> last'.resp, failed |-> last'.failed]
 P_Oracle == [][QuorumSound(st, NextOutcome, st') /\ HeightNotOlder(st, NextOutcome, st') /\ HostSetOnlyForward(st, NextOutcome, st')]_vars
 P_NoEffectOnReject == [][NoEffectOnReject(st, NextOutcome, st')]_vars
